@@ -8619,6 +8619,9 @@ def aten_roll(self: TTensor, shifts: Sequence[int], dims: Sequence[int] = ()) ->
         result = self
         for i, shift in enumerate(shifts):
             dim = dims[i]
+            if dim < 0:
+                # Shape(start=-1, end=0) would be empty; intermediate results have no static shape
+                dim = dim + self_rank
             result = _aten_roll_shift_and_dim_onnx(result, shift, dim)
         return result
 
